@@ -124,8 +124,8 @@ func rulePXBounds(c *Ctx) []Obligation {
 					if e.Kind != "index" && e.Kind != "slice" {
 						continue
 					}
-					if !isBoundsSite(e.In) {
-						continue
+					if !isBoundsSite(e.In) || !c.inModule(e.In.Parent()) {
+						continue // library code evaluated in line is not what is judged
 					}
 					v := c.inBounds(p, e)
 					seen[e.In] = append(seen[e.In], obs{f, e.Depth, v, traceOf(p)})
@@ -574,6 +574,10 @@ func idxUpper(F Facts, base, idx *T) (off int64, ok bool) {
 			}
 		}
 	}
+	// the length of a part of base is at most the length of base
+	if idx.Op == "len" && len(idx.A) == 1 && idx.A[0].Op == "slice" && len(idx.A[0].A) == 3 && idx.A[0].A[0].String() == bs {
+		return 0, true
+	}
 	// an explicit comparison: idx < len(base)
 	if F.Has("lt("+idx.String()+",len("+bs+"))", true) {
 		return -1, true
@@ -789,6 +793,37 @@ func termLenLower(p *PXPath, F Facts, t *T, depth int) int64 {
 		// make([]T, n): n elements
 		if len(t.A) == 1 {
 			return intTermLower(p, F, t.A[0])
+		}
+	case "slice":
+		// x[lo:hi] has hi-lo elements: with a constant lo and hi = k + Index*(…) known to have found
+		// something (>= 0), at least k - lo
+		if len(t.A) == 3 {
+			lo, okLo := t.A[1].intVal()
+			if !okLo {
+				return 0
+			}
+			hi := t.A[2]
+			if h, ok := hi.intVal(); ok {
+				if h-lo > 0 {
+					return h - lo
+				}
+				return 0
+			}
+			if hi.Op == "binop" && hi.Aux == "+" && len(hi.A) == 2 {
+				for k := 0; k < 2; k++ {
+					if c0, ok := hi.A[k].intVal(); ok {
+						other := hi.A[1-k]
+						if other.Op == "call" && (strings.Contains(other.Aux, ".Index") || strings.Contains(other.Aux, ".LastIndex")) {
+							os := other.String()
+							if F.Has("lt("+os+",0)", false) || F.Has("lt(-1,"+os+")", true) || F.Has("eq(-1,"+os+")", false) {
+								if c0-lo > 0 {
+									return c0 - lo
+								}
+							}
+						}
+					}
+				}
+			}
 		}
 	}
 	return 0
